@@ -50,6 +50,126 @@ def strip_int(e: ast.AST) -> ast.AST:
     return _StripInt().visit(copy.deepcopy(e))
 
 
+def slice_module(m: pf.Module, target: str) -> pf.Module:
+    """A module holding only the module-level function `target` and the module-level functions it (transitively) names - what engines/inline.py needs,
+    without deep-copying the whole file."""
+    funcs = {f.name: f for f in m.tree.body if isinstance(f, (ast.FunctionDef, ast.AsyncFunctionDef))}
+    if target not in funcs:
+        raise AnalysisError(f'anchor vanished: {m.rel}::{target} (no definition named {target!r})')
+    keep = [target]
+    i = 0
+    while i < len(keep):
+        for n in ast.walk(funcs[keep[i]]):
+            if isinstance(n, ast.Name) and n.id in funcs and n.id not in keep:
+                keep.append(n.id)
+        i += 1
+    tree = ast.Module(body=[f for f in m.tree.body if isinstance(f, (ast.FunctionDef, ast.AsyncFunctionDef)) and f.name in keep], type_ignores=[])
+    return pf.Module(m.rel, m.path, m.src, tree)
+
+
+def resolve_module_sql(m: pf.Module) -> int:
+    """engines/sqlfront.py resolves the SQL of an execute-style call through string literals, f-strings and single-definition LOCALS; a statement text moved to a
+    module-level constant (`_INSERT_JOBS_SQL = '''...'''`) is left opaque.  Fill those in (module-level names with exactly one assignment to a string literal).
+    Returns the number of calls resolved.  (Work-around kept outside the shared engine.)"""
+    from . import sqlfront as sf
+    consts: Dict[str, List[ast.expr]] = {}
+    for st in m.tree.body:
+        if isinstance(st, ast.Assign):
+            for t in st.targets:
+                if isinstance(t, ast.Name):
+                    consts.setdefault(t.id, []).append(st.value)
+        elif isinstance(st, ast.AnnAssign) and isinstance(st.target, ast.Name) and st.value is not None:
+            consts.setdefault(st.target.id, []).append(st.value)
+    n = 0
+    for e in sf.embedded_in(m):
+        if e.sql_text is not None or not e.call.args:
+            continue
+        a = e.call.args[0]
+        if isinstance(a, ast.Name) and e.fn is not None:
+            a = pf.resolve_expr(e.fn, a)
+        if isinstance(a, ast.Name) and len(consts.get(a.id, [])) == 1 and pf.const_str(consts[a.id][0]) is not None:
+            if e.fn is not None and any(isinstance(x, ast.Name) and x.id == a.id and isinstance(x.ctx, (ast.Store, ast.Del)) for x in ast.walk(e.fn)):
+                continue
+            e.sql_text = pf.const_str(consts[a.id][0])
+            e.how = 'variable'
+            e._stmts = None
+            e.parse_error = None
+            n += 1
+    return n
+
+
+def module_int(m: pf.Module, e: ast.AST) -> Optional[int]:
+    """integer literal, or a module-level name with exactly one assignment to an integer literal."""
+    if isinstance(e, ast.Constant) and isinstance(e.value, int) and not isinstance(e.value, bool):
+        return e.value
+    if isinstance(e, ast.Name):
+        vals = [st.value for st in m.tree.body if isinstance(st, ast.Assign) and any(isinstance(t, ast.Name) and t.id == e.id for t in st.targets)]
+        if len(vals) == 1 and isinstance(vals[0], ast.Constant) and isinstance(vals[0].value, int) and not isinstance(vals[0].value, bool):
+            return vals[0].value
+    return None
+
+
+def error_code_branch(m: pf.Module, handler: ast.ExceptHandler, code: int) -> Optional[List[ast.stmt]]:
+    """The statements an `except <E> as err:` handler executes when `err.args[0] == code`: follows `if err.args[0] == code: ...` (body) and the guard-clause
+    form `if err.args[0] != code: raise` (falls through) through the statement list; other tests on err.args[0] against other literals are followed on the
+    side the code takes.  None when the handler does not test the code in a recognised way."""
+    name = handler.name
+    if not name:
+        return None
+
+    def is_code(e: ast.AST) -> bool:
+        return isinstance(e, ast.Subscript) and isinstance(e.value, ast.Attribute) and e.value.attr == 'args' and isinstance(e.value.value, ast.Name) and e.value.value.id == name \
+            and isinstance(e.slice, ast.Constant) and e.slice.value == 0
+
+    def truth(t: ast.AST) -> Optional[bool]:
+        """truth value of a test when err.args[0] == code (None: unknown)."""
+        if isinstance(t, ast.Compare) and len(t.ops) == 1 and isinstance(t.ops[0], (ast.Eq, ast.NotEq)):
+            for a, b in ((t.left, t.comparators[0]), (t.comparators[0], t.left)):
+                if is_code(a):
+                    k = module_int(m, b)
+                    if k is None:
+                        return None
+                    return (k == code) if isinstance(t.ops[0], ast.Eq) else (k != code)
+            return None
+        if isinstance(t, ast.UnaryOp) and isinstance(t.op, ast.Not):
+            v = truth(t.operand)
+            return None if v is None else not v
+        if isinstance(t, ast.BoolOp):
+            vs = [truth(v) for v in t.values]
+            if isinstance(t.op, ast.And):
+                return False if any(v is False for v in vs) else (True if all(v is True for v in vs) else None)
+            return True if any(v is True for v in vs) else (False if all(v is False for v in vs) else None)
+        return None
+
+    seen_test = [False]
+
+    def follow(stmts: Sequence[ast.stmt]) -> Optional[List[ast.stmt]]:
+        out: List[ast.stmt] = []
+        for i, st in enumerate(stmts):
+            if isinstance(st, ast.If):
+                v = truth(st.test)
+                if v is None:
+                    if any(is_code(x) for x in ast.walk(st.test)):
+                        return None
+                    out.append(st)
+                    continue
+                seen_test[0] = True
+                taken = follow(st.body if v else st.orelse)
+                if taken is None:
+                    return None
+                out += taken
+                if taken and isinstance(taken[-1], (ast.Raise, ast.Return, ast.Continue, ast.Break)):
+                    return out
+                continue
+            out.append(st)
+            if isinstance(st, (ast.Raise, ast.Return, ast.Continue, ast.Break)):
+                return out
+        return out
+
+    res = follow(handler.body)
+    return res if res is not None and seen_test[0] else None
+
+
 # ---- negation normal form of a rejecting test -------------------------------------------------------------------------------------
 
 _NEG = {ast.Lt: ast.GtE, ast.LtE: ast.Gt, ast.Gt: ast.LtE, ast.GtE: ast.Lt, ast.Eq: ast.NotEq, ast.NotEq: ast.Eq}
@@ -147,8 +267,10 @@ class IdFlow:
             return list(self.lists[e.id]) if e.id in self.lists else None
         if isinstance(e, ast.BoolOp) and isinstance(e.op, ast.Or) and len(e.values) == 2 and isinstance(e.values[1], (ast.List, ast.Tuple)) and not e.values[1].elts:
             return self.plist(e.values[0])
-        if isinstance(e, ast.Call) and isinstance(e.func, ast.Name) and e.func.id in ('list', 'sorted', 'tuple', 'set') and len(e.args) == 1:
+        if isinstance(e, ast.Call) and isinstance(e.func, ast.Name) and e.func.id in ('list', 'sorted', 'tuple', 'set', 'frozenset', 'reversed') and len(e.args) == 1:
             return self.plist(e.args[0])
+        if isinstance(e, ast.Call) and pf.dotted(e.func) in ('dict.fromkeys', 'OrderedDict.fromkeys', 'collections.OrderedDict.fromkeys') and len(e.args) == 1 and not e.keywords:
+            return self.plist(e.args[0])            # the keys of dict.fromkeys(X): the elements of X (each once; how many is R9's business, not a bound on their values)
         key = None
         if isinstance(e, ast.Call) and isinstance(e.func, ast.Attribute) and e.func.attr in ('pop', 'get') and isinstance(e.func.value, ast.Name) and e.func.value.id == self.spec and e.args:
             key = pf.const_str(e.args[0])
@@ -321,6 +443,8 @@ class IdFlow:
                     continue
                 if isinstance(c.func, ast.Attribute) and c.func.attr in ('dumps', 'info', 'debug', 'warning', 'error', 'exception'):
                     continue
+                if isinstance(c.func, ast.Attribute) and c.func.attr == 'validate' and isinstance(c.func.value, ast.Name) and c.func.value.id.endswith('_validator'):
+                    continue            # hailtop.utils.validate: `<x>_validator.validate(name, obj)` checks obj against a schema, it does not rewrite it (trusted)
                 for slot in [k for k in self.env if k.startswith(self.spec + '[')]:
                     self.env[slot] = self.opaque(slot)
                 for slot in [k for k in self.lists if k.startswith(self.spec + '[')]:
